@@ -540,7 +540,22 @@ def _retarget(t, old, new):
         t["targets"] = [[v, (new if b == old else b)] for v, b in t["targets"]]
 
 
-def _thread_try(C, hb, B, L, dest, tgt):
+def _rename_local(x, a, b):
+    if isinstance(x, list):
+        for y in x:
+            _rename_local(y, a, b)
+        return
+    if not isinstance(x, dict):
+        return
+    if x.get("local") == a and isinstance(x.get("local"), int) and not isinstance(x.get("local"), bool):
+        x["local"] = b
+    for key, y in x.items():
+        if key in ("span", "ty", "fn_span", "callee"):
+            continue
+        _rename_local(y, a, b)
+
+
+def _thread_try(C, hb, B, L, dest, tgt, direct=False):
     """hb: the helper's blocks (already renumbered from B, `return` already replaced by `dest = move _L; goto tgt`)."""
     import copy
     if tgt is None or dest.get("proj"):
@@ -562,8 +577,12 @@ def _thread_try(C, hb, B, L, dest, tgt):
         return
     edge = {v: b for v, b in st["targets"]}
     # the helper's return blocks (now: ... ; dest = move _L ; goto tgt)
-    rets = [i for i, blk in enumerate(hb) if blk["term"]["k"] == "goto" and blk["term"].get("target") == tgt and blk["stmts"] and
-            blk["stmts"][-1].get("k") == "assign" and blk["stmts"][-1]["place"] == dest]
+    rets = [i for i, blk in enumerate(hb) if blk["term"]["k"] == "goto" and blk["term"].get("target") == tgt and
+            (direct or (blk["stmts"] and blk["stmts"][-1].get("k") == "assign" and blk["stmts"][-1]["place"] == dest))]
+    if direct:
+        # only the blocks that were the helper's `return`: they have no statement assigning the result themselves
+        rets = [i for i in rets if not any(stt.get("k") == "assign" and stt["place"]["local"] == L and not stt["place"]["proj"]
+                                           for stt in hb[i]["stmts"])][:1]
     # which variant does the helper's result hold when a block is left?  (1 = Err, 0 = Ok, None = not known)
     n = len(hb)
     own = {}
@@ -605,17 +624,37 @@ def _thread_try(C, hb, B, L, dest, tgt):
         rabs = B + ri
         for pi in list(range(n)):
             P = hb[pi]
-            if pi == ri or rabs not in _succs(P["term"]) or out.get(pi) != 1:
+            if pi == ri or own.get(pi) != 1 or P.get("cleanup"):
+                continue
+            # from the block that builds the Err: through blocks that only pass the value on, to the return block
+            chain = []
+            ss = [y for y in _succs(P["term"]) if B <= y < B + n and not hb[y - B].get("cleanup")]
+            if len(ss) != 1:
+                continue
+            cur = ss[0] - B
+            okc = True
+            while cur != ri:
+                blk = hb[cur]
+                nxt = [y for y in _succs(blk["term"]) if B <= y < B + n and not hb[y - B].get("cleanup")]
+                if own.get(cur) != "pass" or len(nxt) != 1 or blk["term"]["k"] not in ("goto", "drop") or len(chain) > 60:
+                    okc = False
+                    break
+                chain.append(cur)
+                cur = nxt[0] - B
+            if not okc:
                 continue
             base = B + len(hb)
-            r2 = copy.deepcopy(hb[ri])
-            t2 = copy.deepcopy(T)
-            s2 = copy.deepcopy(S)
-            r2["term"]["target"] = base + 1
-            t2["term"]["target"] = base + 2
-            s2["term"] = {"k": "goto", "target": edge[1], "span": st["span"]}
-            _retarget(P["term"], rabs, base)
-            hb.extend([r2, t2, s2])
+            copies = [copy.deepcopy(hb[x]) for x in chain] + [copy.deepcopy(hb[ri]), copy.deepcopy(T), copy.deepcopy(S)]
+            k = len(copies)
+            for j, cb in enumerate(copies[:-1]):
+                # each copy continues with the next copy
+                tt_ = cb["term"]
+                old_t = tt_.get("target")
+                tt_["target"] = base + j + 1
+            copies[-1]["term"] = {"k": "goto", "target": edge[1], "span": st["span"]}
+            first_old = B + (chain[0] if chain else ri)
+            _retarget(P["term"], first_old, base)
+            hb.extend(copies)
 
 
 def _inline_call(C, bi, H):
@@ -633,12 +672,18 @@ def _inline_call(C, bi, H):
         hb = _subst(hb, sub)
     _remap(hb, L, B)
     dest, tgt, unw = call["dest"], call.get("target"), call.get("unwind")
+    # the helper's result place: the call's destination itself when that is a plain local (so that `Ok(..)` / `Err(..)` built by
+    # the helper are visibly what the destination - often the caller's own return place - receives)
+    direct = not dest.get("proj")
+    if direct:
+        _rename_local(hb, L, dest["local"])
     for blk in hb:
         t = blk["term"]
         if t["k"] == "return":
-            blk["stmts"].append({"k": "assign", "place": dest,
-                                 "rv": {"k": "use", "op": {"k": "move", "place": {"local": L, "proj": [], "ty": hl[0]["ty"]}}},
-                                 "span": t["span"]})
+            if not direct:
+                blk["stmts"].append({"k": "assign", "place": dest,
+                                     "rv": {"k": "use", "op": {"k": "move", "place": {"local": L, "proj": [], "ty": hl[0]["ty"]}}},
+                                     "span": t["span"]})
             blk["term"] = {"k": "goto", "target": tgt, "span": t["span"]} if tgt is not None else {"k": "unreachable", "span": t["span"]}
         elif t["k"] == "resume" and isinstance(unw, int):
             blk["term"] = {"k": "goto", "target": unw, "span": t["span"]}
@@ -646,7 +691,7 @@ def _inline_call(C, bi, H):
     # builds Ok(..) / Err(..) gets its own copy of the caller's `?` blocks with the edge already chosen, so that "the Err of
     # the helper ends in an error" stays visible without path-sensitive reasoning.
     try:
-        _thread_try(C, hb, B, L, dest, tgt)
+        _thread_try(C, hb, B, dest["local"] if direct else L, dest, tgt, direct)
     except Exception:
         pass
     stmts = C["blocks"][bi]["stmts"]
